@@ -772,10 +772,6 @@ class kMinPathError(pathmodel.AbstractPathModelDAG):
         solution_slacks = self._solution["slacks"]
         if len(self.path_length_factors) > 0:
             solution_slacks = self._solution["scaled_slacks"]
-        for path in solution_paths:
-            if len(path) == 1:
-                utils.logger.error(f"{__name__}: Encountered a solution path with length 1, which is not allowed.")
-                raise ValueError("Solution path with length 1 encountered.")
         solution_paths_of_edges = [
             [(path[i], path[i + 1]) for i in range(len(path) - 1)]
             for path in solution_paths
